@@ -10,7 +10,7 @@ import z3
 
 from . import dump, replay
 from . import client_model as cm
-from .executor import Explorer
+from .executor import Explorer, IO_ERROR_KINDS
 from .mirparse import Unsupported
 from .values import *
 
@@ -26,7 +26,7 @@ def configs_for(ep, tier, seed, idx):
     tagsets = [(), ('kv',), ('bare',), ('kv', 'bare'), ('bare', 'kv'), ('kv', 'kv')]
     if tier == 'thorough':
         tagsets += [('kv', 'bare', 'kv'), ('bare', 'bare', 'kv')]
-    dtagsets = [(), ('kv',), ('bare',), ('kv', 'bare')] if tier == 'quick' else [(), ('kv',), ('bare',), ('kv', 'bare'), ('bare', 'kv')]
+    dtagsets = [(), ('kv',), ('bare',), ('kv', 'bare'), ('kv', 'kv')] if tier == 'quick' else [(), ('kv',), ('bare',), ('kv', 'bare'), ('bare', 'kv'), ('kv', 'kv'), ('bare', 'bare')]
     prefixes = [(False, 0), (False, 1), (False, 2), (True, 0)]
     # plain form: client-side configuration only
     for (pe, pd), dt, dc in itertools.product(prefixes, dtagsets, (False, True)):
@@ -72,7 +72,13 @@ def _job(args):
     counters = {'obligations': 0, 'paths': 0, 'runs': 0, 'emitting_paths': 0, 'rejecting_paths': 0}
     samples = []
     err = None
+    seen_kinds = {}
+    stopped_early = False
     for ep, cfg in eps_cfgs:
+        if sum(1 for f in findings if f['scenario'] is not None) >= 8 or len(findings) >= 200:
+            # plenty of counterexamples to replay already: do not burn the budget on more of the same
+            stopped_early = True
+            break
         ex.assumptions = cm.len_assumptions(cm.input_names(cfg), cfg)
         ex.var_bounds = cm.len_bounds(cm.input_names(cfg))
         local = []
@@ -97,9 +103,8 @@ def _job(args):
             err = '%s %s: %s' % (ep[:3], cfg.describe(), str(e)[:600])
             break
         counters['runs'] += 1
-        seen_kinds = {}
         for f in local:
-            kk = (f['prop'], f['clause'])
+            kk = (f['prop'], f['clause'], ep[:2])
             seen_kinds[kk] = seen_kinds.get(kk, 0) + 1
             scs = scenarios_from_finding(f) if seen_kinds[kk] <= 2 else []
             if not scs:
@@ -107,7 +112,7 @@ def _job(args):
             for sc in scs:
                 findings.append({'prop': f['prop'], 'clause': f['clause'], 'detail': str(f['detail']), 'scenario': sc})
     st = ex.stats
-    return {'findings': findings, 'counters': counters, 'error': err, 'samples': samples,
+    return {'findings': findings, 'counters': counters, 'error': err, 'samples': samples, 'stopped_early': stopped_early,
             'queries': st.queries, 'sat': st.sat, 'unsat': st.unsat, 'unknown': st.unknown, 'solver_time': st.solver_time,
             'functions': sorted(st.functions), 'stubs': sorted(st.stubs), 'env': sorted(st.env_calls), 'steps': st.steps,
             'backend': dict(ex.smt.counts)}
@@ -185,6 +190,18 @@ def scenario_from_finding(f):
         if ln > 4096:
             return None
         strings[n] = concrete_string(n, ln)
+    # strings the path condition declares equal get the same text
+    for vn, (a, b) in (f.get('streq') or {}).items():
+        val = m.eval(z3.Bool(vn), model_completion=True)
+        if z3.is_true(val):
+            ka, kb = a.norm(), b.norm()
+            if len(ka) == 1 and len(kb) == 1 and not isinstance(ka[0], bytes) and not isinstance(kb[0], bytes):
+                if ka[0].name in strings and kb[0].name in strings:
+                    strings[kb[0].name] = strings[ka[0].name]
+            elif len(ka) == 1 and not isinstance(ka[0], bytes) and all(isinstance(x, bytes) for x in kb) and ka[0].name in strings:
+                strings[ka[0].name] = b''.join(kb).decode('utf-8', 'replace')
+            elif len(kb) == 1 and not isinstance(kb[0], bytes) and all(isinstance(x, bytes) for x in ka) and kb[0].name in strings:
+                strings[kb[0].name] = b''.join(ka).decode('utf-8', 'replace')
     sc = {'kind': 'client', 'entry': list(ep[:3]), 'config': cfg.describe(), 'strings': strings,
           'prefix': '' if cfg.prefix_empty else strings.get('P', '') + '.' * cfg.prefix_dots}
     tr, vty = ep[0], ep[1]
@@ -210,6 +227,17 @@ def scenario_from_finding(f):
     sc['timestamp'] = str(g(z3.BitVec('ts_val', 64))) if cfg.ts else None
     sink_fail = any(e[0] == 'emit' and e[2] == 'err' for e in f['events'])
     sc['sink'] = 'err' if sink_fail else 'ok'
+    script = []
+    inv_kinds = {v: k for k, v in IO_ERROR_KINDS.items()}
+    for e in f['full_events']:
+        if e[0] != 'emit':
+            continue
+        if e[2] == 'ok':
+            script.append('ok')
+        else:
+            kv = m.eval(e[3].state[1], model_completion=True).as_long()
+            script.append('err:' + inv_kinds.get(kv, 'Other'))
+    sc['sink_script'] = script
     sc['claimed'] = {'prop': f['prop'], 'clause': f['clause'], 'detail': str(f['detail'])[:400]}
     return sc
 
